@@ -224,6 +224,9 @@ func filesOf(meta *sx.Sexp) (paths []string, files map[string]string) {
 	files = map[string]string{}
 	for _, f := range meta.Xs[1:] {
 		p := string(f.Xs[0].B)
+		if strings.HasPrefix(p, "\x00") {
+			continue
+		}
 		paths = append(paths, p)
 		files[p] = string(f.Xs[1].B)
 	}
@@ -349,6 +352,7 @@ func init() {
 			_ = ce
 			return sx.L(sx.A("crash"), outSexp(buf.Bytes())), "Execute panicked: " + ce.msg
 		}
+		oracle := checkExpectation(meta, buf.Bytes(), xerr)
 		if xerr != nil {
 			if dbg := os.Getenv("JV_DEBUG"); dbg != "" {
 				if f, ferr := os.OpenFile(dbg, os.O_APPEND|os.O_CREATE|os.O_WRONLY, 0o644); ferr == nil {
@@ -357,9 +361,9 @@ func init() {
 				}
 			}
 			loc, p, ln := errObs(xerr)
-			return sx.L(sx.A("err"), loc, p, ln, outSexp(buf.Bytes()), logSexp()), ""
+			return sx.L(sx.A("err"), loc, p, ln, outSexp(buf.Bytes()), logSexp()), oracle
 		}
-		return sx.L(sx.A("ok"), outSexp(buf.Bytes()), logSexp()), ""
+		return sx.L(sx.A("ok"), outSexp(buf.Bytes()), logSexp()), oracle
 	})
 	// model output: render float placeholders with the implementation's formatter, merge pieces
 	h.ModelNormalizers["exec"] = func(m *sx.Sexp) *sx.Sexp {
@@ -399,6 +403,59 @@ func init() {
 		}
 		return m
 	}
+}
+
+// checkExpectation: the direct oracle of constructive cases (expected output / error position
+// computed by the generator from the property, not from the model).
+func checkExpectation(meta *sx.Sexp, out []byte, xerr error) string {
+	var exp *sx.Sexp
+	for _, f := range meta.Xs[1:] {
+		if string(f.Xs[0].B) == "\x00expect" {
+			exp, _ = sx.Parse(string(f.Xs[1].B))
+		}
+	}
+	if exp == nil {
+		return ""
+	}
+	want := string(exp.Xs[1].B)
+	if strings.Contains(string(out), "DEAD") {
+		return "a branch/body that must not be rendered was rendered (DEAD marker in output)"
+	}
+	if len(exp.Xs) > 2 {
+		f := exp.Xs[2]
+		if xerr == nil {
+			return "a failing action (" + string(f.Xs[3].B) + ") did not make Execute return an error"
+		}
+		if string(out) != want {
+			return fmt.Sprintf("output before the failing action: got %q want %q", clipS(string(out)), clipS(want))
+		}
+		loc, p, ln := errObs(xerr)
+		act := string(f.Xs[3].B)
+		selfDetected := !strings.HasPrefix(act, "{{ fail(")
+		if selfDetected {
+			if loc.A != "true" {
+				return "error for " + act + " carries no file/line: " + clipS(xerr.Error())
+			}
+			if string(p.B) != string(f.Xs[1].B) || ln.A != f.Xs[2].A {
+				return fmt.Sprintf("error for %s names %s:%s, want %s:%s", act, p.B, ln.A, f.Xs[1].B, f.Xs[2].A)
+			}
+		}
+		return ""
+	}
+	if xerr != nil {
+		return "unexpected error: " + clipS(xerr.Error())
+	}
+	if string(out) != want {
+		return fmt.Sprintf("output: got %q want %q", clipS(string(out)), clipS(want))
+	}
+	return ""
+}
+
+func clipS(s string) string {
+	if len(s) > 300 {
+		return s[:300] + "..."
+	}
+	return s
 }
 
 type crashErr struct{ msg string }
